@@ -95,7 +95,7 @@ def combineOps (ops : List Op) : Except Err (List Op) := do
 /-- stable insertion sort by integer key (`list.sort(key=lambda x: x.key)`). -/
 def insertByIdx (e : Op) : List Op → List Op
   | [] => [e]
-  | x :: rest => if e.idx < x.idx then e :: x :: rest else x :: insertByIdx e rest
+  | x :: rest => if e.idx ≤ x.idx then e :: x :: rest else x :: insertByIdx e rest
 
 def sortByIdx (ops : List Op) : List Op := ops.foldr insertByIdx []
 
